@@ -114,7 +114,7 @@ def names_invariant(top):
   evaluates back to the object; parent / host / level / top-level-signal
   metadata agree with the name.  -> (violation detail or None, name set)"""
   from pymtl3.dsl.Component import Component
-  from pymtl3.dsl.Connectable import Interface, Signal
+  from pymtl3.dsl.Connectable import Interface, MethodPort, Signal
   objs = top.get_all_object_filter(lambda x: True)
   # struct-field and slice signals are created lazily and are not in all_named_objects:
   # walk them through the attribute dictionaries of the signals
@@ -149,6 +149,7 @@ def names_invariant(top):
     if name in seen and seen[name] is not o:
       return {"check": "name_not_unique", "name": name, "types": [type(o).__name__, type(seen[name]).__name__]}, None
     seen[name] = o
+  compnames = {n: x for n, x in seen.items() if isinstance(x, Component)}
   for o in allobjs:
     name = repr(o)
     try:
@@ -163,15 +164,21 @@ def names_invariant(top):
     pname = repr(par)
     if not (name.startswith(pname) and len(name) > len(pname) and name[len(pname)] in ".["):
       return {"check": "parent_not_prefix", "name": name, "parent": pname}, None
-    if isinstance(o, Signal):
+    # the last step of the name is the field name (plus indices)
+    fn = o.get_field_name()
+    tail = name[len(pname):]
+    if not (tail.startswith("." + fn) or (tail.startswith("[") and isinstance(par, Signal))):
+      return {"check": "field_name_not_in_name", "name": name, "field_name": fn, "parent": pname}, None
+    if isinstance(o, (Signal, Interface, MethodPort)):
       host = o.get_host_component()
       hname = repr(host)
       if not isinstance(host, Component) or not (name.startswith(hname + ".")):
         return {"check": "host_not_prefix", "name": name, "host": hname}, None
       # the host is the deepest component whose name is a prefix
-      deeper = [n for n, x in seen.items() if isinstance(x, Component) and name.startswith(n + ".") and len(n) > len(hname)]
+      deeper = [name[:i] for i, ch in enumerate(name) if ch == "." and i > len(hname) and name[:i] in compnames]
       if deeper:
         return {"check": "host_not_deepest", "name": name, "host": hname, "deeper": deeper[:2]}, None
+    if isinstance(o, Signal):
       tl = o.get_top_level_signal()
       tname = repr(tl)
       if not name.startswith(tname):
@@ -183,8 +190,8 @@ def names_invariant(top):
     if isinstance(o, Component):
       lvl = o.get_component_level()
       # level = number of enclosing components (top is 0)
-      depth = sum(1 for n, x in seen.items() if isinstance(x, Component) and x is not o and
-                  (name.startswith(n + ".") or name.startswith(n + "[")) and _is_ancestor(x, o))
+      depth = sum(1 for i, ch in enumerate(name) if ch in ".[" and name[:i] in compnames and
+                  compnames[name[:i]] is not o and _is_ancestor(compnames[name[:i]], o))
       if lvl != depth:
         return {"check": "component_level", "name": name, "level": lvl, "ancestors": depth}, None
   return None, set(seen)
